@@ -1315,6 +1315,7 @@ theorem step_deleteLoops (fuel : Nat) (ih : ∀ (o : ObjId) (st : St), Step s0 s
         match sch.decl c, sch.decl ((sch.decl c).map (·.rev) |>.getD c) with
         | some d, some rd =>
           if d.kind != .coll then .ok st
+          else if (st.store.row o).status.isDel then .err .objectDeleted st
           else
             let members := st.store.elems ((st.store.row o).items c)
             if members.isEmpty then .ok st
@@ -1342,14 +1343,16 @@ theorem step_deleteLoops (fuel : Nat) (ih : ∀ (o : ObjId) (st : St), Step s0 s
     split
     · split
       · exact Step.refl _ _
-      · dsimp only
-        split
+      · split
         · exact Step.refl _ _
-        · split
-          · exact step_iter (fun x st => ih x st) _ _
+        · dsimp only
+          split
+          · exact Step.refl _ _
           · split
-            · exact step_setColl (fun x st => ih x st) true o c [] s _ rfl (Or.inl rfl)
-            · exact Step.refl _ _
+            · exact step_iter (fun x st => ih x st) _ _
+            · split
+              · exact step_setColl (fun x st => ih x st) true o c [] s _ rfl (Or.inl rfl)
+              · exact Step.refl _ _
     · exact Step.refl _ _
   · intro st1 _
     apply step_iter
